@@ -428,6 +428,22 @@ def op_preserved(case, pm):
     return res
 
 
+def op_minify(case, pm):
+    """just the output of minify() in this interpreter (decided elsewhere: the 3.12 matcher compares it with the input)"""
+    src = get_src(case)
+    try:
+        compile(src, 'foreign_case', 'exec', dont_inherit=True)
+    except Exception:
+        return {'status': 'skip', 'reason': 'uncompilable here'}
+    try:
+        out = pm.minify(src, **make_kwargs(pm, case.get('opts') or {}))
+    except Exception as e:
+        return {'status': 'error', 'exc': exc_info(e)}
+    if PY2 and not isinstance(out, unicode):
+        out = out.decode('utf-8')
+    return {'status': 'ok', 'out': out}
+
+
 # ---- C01 cross-interpreter layer: run P and minify(P) in this interpreter, compare what each prints / raises / leaves in its namespace
 class _Sink(object):
     def __init__(self):
@@ -572,7 +588,7 @@ def op_run(case, pm):
     return res
 
 
-OPS = {'run': op_run, 'preserved': op_preserved, 'frozen': op_frozen, 'rt': op_rt, 'mc': op_mc, 'fold': op_fold, 'compile': op_compile, 'valeq': op_valeq}
+OPS = {'run': op_run, 'minify': op_minify, 'preserved': op_preserved, 'frozen': op_frozen, 'rt': op_rt, 'mc': op_mc, 'fold': op_fold, 'compile': op_compile, 'valeq': op_valeq}
 
 
 def main():
